@@ -42,3 +42,20 @@ Definition accessor_site_status : list (string * string * string * string) :=
     ("curr_slice", "&self.modified[range]", "Buffer.curr_slice", "proved in C08 (curr_slice_c_spec) for ranges coming from character indices");
     ("resolve_best_path", "byte_begin as u16 / byte_end as u16", "cast_u16", "proved: C03_resolve_node_ok (offsets <= length of the rewritten text <= 65535: reach_len_u16)");
     ("resolve_best_path", "inner.word_id().word() as u16", "-", "reviewed: the word part of an OOV id is the POS id the provider stored (u16 by construction)") ].
+
+(* The classified constructs as keys (gen/sitekeys.py), per function: Generated.AccessorSites.accessor_site_keys has to stay WITHIN this table
+   (obligation C03_fact_accessor_sites: Proofs/SiteCover.covered).  A construct that disappears from the code, or an index /
+   cast operand spelled differently, leaves the obligation closed; a new construct or one more of a kind re-opens it.
+   The table `buffer_accessors_classified` above is the reviewed inventory with the full expressions of the pinned tree (what the site-status
+   table talks about); Generated/AccessorSites.v still lists the current expressions next to the keys. *)
+Definition accessor_keys_classified : list (string * list string) :=
+  [ ("to_orig_byte_idx", ["idx:self.m2o[i]"; "idx:self.mod_c2b[i]"]);
+    ("to_orig_char_idx", ["idx:self.m2o_2[i]"]);
+    ("to_curr_byte_idx", ["idx:self.mod_c2b[i]"]);
+    ("curr_slice_c", ["idx:self.mod_c2b[i]"; "idx:self.mod_c2b[i]"; "idx:self.modified[r]"]);
+    ("orig_slice_c", ["idx:self.original[r]"]);
+    ("ch_idx", ["idx:self.mod_b2c[i]"]);
+    ("orig_slice", ["idx:self.original[i]"]);
+    ("curr_slice", ["idx:self.modified[i]"]);
+    ("to_orig", ["idx:self.m2o[i]"; "idx:self.m2o[i]"]);
+    ("resolve_best_path", ["cast:u16"; "cast:u16"; "cast:u16"]) ].
